@@ -17,6 +17,7 @@ from concurrent.futures import ThreadPoolExecutor
 
 BASE = json.load(open("/root/.vp/BASELINE.json"))
 STABLE = set(BASE["stable_pass"])
+KEY = "suite_only" if os.environ.get("SEED_CONFIRM_ONLY") else "suite"
 HEAD = subprocess.run("git -C /repo rev-parse HEAD", shell=True, capture_output=True, text=True).stdout.strip()
 
 
@@ -32,10 +33,16 @@ def one(root, sid):
     sh(f"git -C {wt} checkout -q -- . && git -C {wt} clean -fdq -- pandera && git -C {wt} checkout -q --detach {HEAD}")
     r = sh(f"git -C {wt} apply {d}/patch.diff")
     if r.returncode != 0:
-        meta["suite"] = {"applied": False, "error": r.stderr[-300:]}
+        meta[KEY] = {"applied": False, "error": r.stderr[-300:]}
     else:
         junit = f"/tmp/seed_confirm_{sid}.xml"
         cmd = BASE["cmd"].replace("cd /repo", f"cd {wt}").replace("<file>", junit)
+        ignored = [x for x in os.environ.get("SEED_CONFIRM_IGNORE", "").split(",") if x]
+        for ig in ignored:
+            cmd += f" --ignore={ig}"
+        only = os.environ.get("SEED_CONFIRM_ONLY", "")
+        if only:
+            cmd += f" {only}"
         # the interpreter of the pinned command must also be the one pyspark starts its workers with
         env = dict(os.environ, PYTHONPATH=wt, RAY_DISABLE_IMPORT_WARNING="1", PYSPARK_PYTHON="/venv/bin/python",
                    PYSPARK_DRIVER_PYTHON="/venv/bin/python", PATH="/venv/bin:" + os.environ.get("PATH", ""))
@@ -56,21 +63,27 @@ def one(root, sid):
                     # the Timedelta64 case of this parametrisation always fails here (a pyspark AttributeError); which id it
                     # gets depends on the hash seed (the baseline lists four such ids as flaky)
                     passed.add(name)
-            missing = sorted(STABLE - passed)
+            ign_mods = tuple(ig.strip("/").replace("/", ".") for ig in ignored)
+            stable = {t for t in STABLE if not (ign_mods and t.startswith(ign_mods))}
+            if only:
+                stable = {t for t in stable if t.startswith(only[:-3].replace("/", "."))}
+            missing = sorted(stable - passed)
             chk = sh(f"cd {wt} && PYTHONPATH={wt} /venv/bin/python -c 'import pandera,sys;print(pandera.__file__)'")
-            meta["suite"] = {"applied": True, "head": HEAD[:7], "passed": len(passed), "stable_pass": len(STABLE),
+            meta["suite_only" if only else "suite"] = {"applied": True, "head": HEAD[:7], "passed": len(passed), "stable_pass": len(stable),
+                             **({"ignored": ignored} if ignored else {}), **({"only": only} if only else {}),
                              "stable_not_passing": missing[:20], "pandera_imported_from": chk.stdout.strip()}
         except Exception as e:  # noqa: BLE001
-            meta["suite"] = {"applied": True, "error": f"{type(e).__name__}: {e}"}
+            meta[KEY] = {"applied": True, "error": f"{type(e).__name__}: {e}"}
         if os.path.exists(junit):
             os.remove(junit)
     sh(f"git -C {wt} checkout -q -- . && git -C {wt} clean -fdq -- pandera")
     # the suite takes long: other tools may have completed the file meanwhile — add the one field to what is there now
-    suite = meta["suite"]
+    key = "suite_only" if os.environ.get("SEED_CONFIRM_ONLY") else "suite"
+    suite = meta.get(key)
     meta = json.load(open(d + "/meta.json"))
-    meta["suite"] = suite
+    meta[key] = suite
     json.dump(meta, open(d + "/meta.json", "w"), indent=1)
-    print(sid, json.dumps(meta["suite"])[:300], flush=True)
+    print(sid, json.dumps(meta.get("suite_only" if os.environ.get("SEED_CONFIRM_ONLY") else "suite"))[:300], flush=True)
 
 
 def main():
